@@ -367,6 +367,12 @@ func (c *Client) Initialize(ctx context.Context, initReq *InitializeRequest) (*I
 		return nil, errors.ErrAlreadyInitialized
 	}
 
+	// A Close that runs while this handshake is under way must keep it from opening the listening stream.
+	var closesAtStart uint64
+	if t, ok := c.transport.(*streamableHTTPClientTransport); ok {
+		closesAtStart = t.closeCount()
+	}
+
 	// Create request.
 	requestID := c.requestID.Add(1)
 	req := newJSONRPCRequest(requestID, MethodInitialize, map[string]interface{}{
@@ -424,7 +430,7 @@ func (c *Client) Initialize(ctx context.Context, initReq *InitializeRequest) (*I
 		// does not block; the stream is registered (with its cancel func) before Initialize returns,
 		// so that a Close right after Initialize stops it instead of leaving it open for good.
 		// Pass the context so GET SSE can inherit context values.
-		t.establishGetSSEConnection(ctx)
+		t.establishGetSSEConnection(ctx, closesAtStart)
 	}
 
 	return initResult, nil
